@@ -252,8 +252,90 @@ func runC04(c *Ctx) {
 			c.Bad("R4.4", "withhold decision", wr.Pos(), "Write no longer consults packetmap.Drop and packetmap.Map")
 		} else {
 			contains := func(n ast.Node, call *ast.CallExpr) bool { return n.Pos() <= call.Pos() && call.End() <= n.End() }
+			// the variable that holds the selection when the withhold decision is taken: the
+			// one first loaded, or - when helpers hand the selection on by value - a variable
+			// of the same type reached from it through whole-value copies that is the most
+			// recently assigned of them at the Drop call (no other copy was assigned or had a
+			// field stored since: a stale copy does not qualify)
+			chain := map[types.Object]bool{layer: true}
+			wholeAssigns := func(visit func(lhs, rhs types.Object, at ast.Node)) {
+				ast.Inspect(wr.Body(), func(n ast.Node) bool {
+					as, ok := n.(*ast.AssignStmt)
+					if !ok || len(as.Lhs) != len(as.Rhs) {
+						return true
+					}
+					for i, l := range as.Lhs {
+						lid, isL := l.(*ast.Ident)
+						if !isL || !isLayerVar(info.ObjectOf(lid)) {
+							continue
+						}
+						var ro types.Object
+						if rid, isR := unparen(as.Rhs[i]).(*ast.Ident); isR {
+							ro = info.ObjectOf(rid)
+						}
+						visit(info.ObjectOf(lid), ro, as)
+					}
+					return true
+				})
+			}
+			for changed := true; changed; {
+				changed = false
+				wholeAssigns(func(lhs, rhs types.Object, _ ast.Node) {
+					if rhs != nil && chain[rhs] && !chain[lhs] {
+						chain[lhs] = true
+						changed = true
+					}
+				})
+			}
+			selVar := layer
+			if len(chain) > 1 {
+				for x := range chain {
+					x := x
+					gen := func(n ast.Node) bool {
+						as, ok := n.(*ast.AssignStmt)
+						if !ok {
+							return false
+						}
+						for _, l := range as.Lhs {
+							if id, isId := l.(*ast.Ident); isId && info.ObjectOf(id) == x {
+								return true
+							}
+						}
+						return false
+					}
+					kill := func(n ast.Node) bool {
+						killed := false
+						ast.Inspect(n, func(m ast.Node) bool {
+							as, ok := m.(*ast.AssignStmt)
+							if !ok {
+								return true
+							}
+							for _, l := range as.Lhs {
+								switch y := unparen(l).(type) {
+								case *ast.Ident:
+									if o := info.ObjectOf(y); o != x && chain[o] {
+										killed = true
+									}
+								case *ast.SelectorExpr:
+									if id, isId := unparen(y.X).(*ast.Ident); isId {
+										if o := info.ObjectOf(id); o != x && chain[o] {
+											killed = true
+										}
+									}
+								}
+							}
+							return true
+						})
+						return killed
+					}
+					if x != layer && facts.MustFlag(gen, kill)(dropc) {
+						selVar = x
+					}
+				}
+			}
+			LS := func(n string) *Term { return TField(TVar(selVar), lf(n)) }
 			for _, dim := range [][2]string{{"tid", "Tid"}, {"sid", "Sid"}} {
-				notAbove := mkFact(false, "lt", L(dim[0]), F(dim[1]))
+				notAbove := mkFact(false, "lt", LS(dim[0]), F(dim[1]))
 				_, found := facts.PathSearch(wr.Body().List[0], 0, func(n ast.Node, st *State, flag int) (int, bool) {
 					if contains(n, dropc) {
 						return flag, true
@@ -271,7 +353,7 @@ func runC04(c *Ctx) {
 				if as, ok := n.(*ast.AssignStmt); ok && as.Pos() > dropc.Pos() {
 					for _, l := range as.Lhs {
 						if sel, ok := unparen(l).(*ast.SelectorExpr); ok {
-							if id, ok := unparen(sel.X).(*ast.Ident); ok && info.Uses[id] == layer {
+							if id, ok := unparen(sel.X).(*ast.Ident); ok && (info.Uses[id] == layer || info.Uses[id] == selVar) {
 								okLate = false
 							}
 						}
